@@ -28,6 +28,10 @@ CLAIMED["C12"] = dict(technique="metamorphic testing over rapid-generated progra
 CLAIMED["C13"] = dict(technique="metamorphic testing over rapid-generated programs: rewriting use-site type expressions into identical types (aliases, parentheses, renamed imports) must leave the (site, code) verdict set unchanged",
     text="A random subset of the type mentions of a generated program is respelled through an alias declared in the using package, an alias declared in a new third package (the user keeps a direct import of the declaring package), added parentheses, or renamed imports; the (tagged statement, code) set must equal the base program's.",
     note=_meta_note + "; value<->pointer respelling is not exercised", ref="DESIGN.md section 3, C13")
+
+CLAIMED["C07"] = dict(technique="metamorphic testing over rapid-generated programs: inserting one @ignore comment must remove exactly the diagnostics in its model-computed scope that match its codes",
+    text="One @ignore comment is inserted into a generated program at a model-level position (before the package clause, alone before a declaration or statement, trailing the first or last line of a node), on a node containing a chosen diagnostic, a sibling, or anywhere, with a code list from 12 classes; expected result = baseline minus {in scope and matched under ALL>category>code}, with the once-per-file reports moving to the next unsuppressed use known from the model; compared in both directions.",
+    note=_meta_note + "; scope is computed from the model's node line ranges, never from gogreement's AST walk; not placed: comments inside type bodies / composite literals, last-in-block comments, block comments", ref="DESIGN.md section 3, C07")
 ALL = ["C%02d" % i for i in range(1, 20)]
 NA_REASON = {}
 def main():
